@@ -163,6 +163,22 @@ class MoveAnalysis:
                 d = fn.decl(n)
                 if d['kind'] in ('var', 'parm'):
                     refs.setdefault(d['id'], []).append(n)
+        # local references that may alias a variable: `const T & r = f(v, ...)` where f returns an lvalue reference and receives v by
+        # reference (e.g. a getEvent that hands its argument back by reference) - a use of r is then a use of v
+        for vid, vd in fn.var_decls().items():
+            t = fn.tu.type(vd.get('t'))
+            init = vd.get('init')
+            if not t or not t.get('ref') or not init:
+                continue
+            x = fn.strip_all_casts(init)
+            xo = fn.nodes[x]
+            if not fn.is_call(x) or xo.get('vk') != 'l':
+                continue
+            for a in fn.call_args(x):
+                pa = path(fn, a, resolve_refs=False)
+                if len(pa) == 1 and pa[0].startswith('v:') and root_var_id(pa) in refs and root_var_id(pa) != vid:
+                    for u in refs.get(vid, []):
+                        refs.setdefault(root_var_id(pa), []).append(u)
         for s in sites:
             v = s['var']
             cons = s['consumer']
